@@ -33,11 +33,23 @@ def c04(nsym, setups, slim=False):
                       "then Tstat probes of fids 0..2 on both connections, Tclunk of every fid the model holds valid, probes again, FidDestroy log checked"})
     return runs
 ALL = [(s, a) for s in (0, 1, 2, 3, 5) for a in (False, True)] + [(4, True)]
+def busy(P):
+    runs = []
+    for rm in (False, True):
+        for rb in (False, True):
+            r = {"harness": "vxH04Busy", "args": [b(rm), b(rb)], "files": ["api", "ref_wire", "kit_srv", "kit_net", "c04_busy"], "preempt": P, "race": True, "reach": ["done"], "timeout_s": 1500,
+                 "bounds": f"live connection: fid 1 is {'removed' if rm else 'clunked'} while a Tstat on it is held inside the implementation; then " +
+                           ("a Twalk binds the number again, the held request returns, the new fid is used, hang-up" if rb else "a Tstat names the clunked fid, the held request returns, hang-up") +
+                           (f"; all schedules with <= {P} preemptions" if P > 0 else "; deterministic schedule")}
+            if P == 0:
+                r["free_switches"] = -1
+            runs.append(r)
+    return runs
 w("C04", {
- "quick": c04(1, ALL),
- "thorough": c04(1, ALL) + c04(2, [(0, False), (5, True)]) + c04(2, [(2, False), (4, True)], slim=True),
+ "quick": c04(1, ALL) + busy(0) + busy(1)[1:2],
+ "thorough": c04(1, ALL) + c04(2, [(0, False), (5, True)]) + c04(2, [(2, False), (4, True)], slim=True) + busy(0) + busy(2),
  "outside": ["histories that need three or more arbitrary requests after the setup prefix to expose a fault", "more than 3 fid numbers, more than 2 connections, more than 2 users",
-             "requests issued concurrently (C04 is sequential; concurrency is C03/C07/C08/C19)",
+             "requests issued concurrently, except a clunk/remove of a fid that another request is executing on (H04.busy) and a fid being created at the hang-up (lemma shared with C11); other concurrency is C03/C07/C08/C19",
              "NOFID used as the fid a Tauth/Tattach/Twalk would bind: any refusal accepted, and a fid bound to the number NOFID is not expected in the FidDestroy log (the statement is silent)",
              "which error is reported when several refusals apply (walk from an open fid / non-directory to a bound newfid; Tauth/Tattach whose user is not given by matching name and number)"],
  "assumptions": ["oracle: reference fid-table model of DESIGN Appendix B.3 in harness/c04_fids.go (valid fids and their users per connection), advanced by the replies, compared through Tstat probes, refusals and the FidDestroy log",
